@@ -269,6 +269,9 @@ impl C17 {
             _ => 5_000,
         };
         let n = ALPHABET.len() as u64;
+        if ctx.flavour == Flavour::Miri {
+            return Families::new(vec![("directed", directed().len() as u64), ("len-1", n), ("len-2", 40), ("len-3", 40), ("cuts", 4), ("random", 40)]);
+        }
         let (l3, cuts) = match (ctx.flavour, ctx.tier) {
             (Flavour::Rel, Tier::Quick) => (n * n * n, 600),
             (Flavour::Rel, Tier::Thorough) => (n * n * n, n + n * n + n * n * n),
@@ -722,6 +725,10 @@ impl Check for C17 {
     fn post(&mut self, ctx: &Ctx, merged: &mut Stats) {
         if ctx.flavour == Flavour::Rel && ctx.tier == Tier::Thorough {
             crate::sup::run_sub_flavour("C17", ctx, Flavour::Asan, merged);
+            // heap values surviving from one run to the next, under Miri with the shadow heap off
+            let mctx = Ctx { seed: ctx.seed, tier: ctx.tier, flavour: Flavour::Miri };
+            let n = self.fams(&mctx).total();
+            crate::sup::run_miri("C17", ctx, 0, n, 16, merged);
         }
     }
 }
